@@ -24,7 +24,7 @@ func init() {
 			"with 0 accidentals the flat/sharp flag is reported as sharp (false): the circle of fifths has no flats there",
 			"tempo domain is the set of BPM values 60e6/f for every 24-bit field value f >= 1 (every representable tempo)",
 		},
-		Require: []string{"text_len_ge_128", "seqdata_len_ge_128", "tempo_fields", "named_keys", "key_tuples", "timesig_tuples", "meta_msgs_classified"},
+		Require: []string{"text_len_ge_128", "seqdata_len_ge_128", "tempo_fields", "named_keys", "key_tuples", "timesig_tuples", "meta_msgs_classified", "text_dictionary_points"},
 		Run:     runC15,
 	})
 }
@@ -142,6 +142,39 @@ func runC15(c *mon.Ctx) {
 		}
 		if n == 128 {
 			c.Sample("text", map[string]any{"ctor": "MetaText", "len": n, "head": mon.Hex(head(smf.MetaText(string(bytes.Repeat([]byte("x"), n))), 8))})
+		}
+	})
+
+	// ---- text contents from a dictionary of 'special' prefixes, suffixes and whole values
+	// (byte order marks, whitespace, NULs, format verbs, quotes, invalid and truncated UTF-8, ...)
+	special := []string{"\xEF\xBB\xBF", "\xFF\xFE", "\xFE\xFF", " ", "  ", "\t", "\n", "\r\n", "\x00", "\x00\x00", "%", "%s", "%d%n", "%!", "\\", "\"", "'", "`", "\x7F", "\x80", "\xBF", "\xC2", "\xE2\x82", "\xF0\x9F\x8E", "\xF0\x9F\x8E\xB5", "\xC0\x80", "\xED\xA0\x80", "\xFF", "\xFF\xFF\xFF", "\u00e4", "\u4e16\u754c", "MThd", "MTrk", "\xFF\x2F\x00", "\xF7", "\xF0"}
+	c.Each("text-dictionary", int64(len(special)), func(i int64, r *mon.Rand) {
+		sp := special[i]
+		body := "Title"
+		cands := []string{sp, sp + body, body + sp, sp + body + sp, body + sp + body, sp + sp, sp + string(bytes.Repeat([]byte("x"), 125)), sp + string(bytes.Repeat([]byte("y"), 130)), string(bytes.Repeat([]byte(sp), 90))}
+		for _, t := range cands {
+			for _, k := range textKinds {
+				m := k.mk(t)
+				c.Count("text_points", 1)
+				c.Count("text_dictionary_points", 1)
+				if !metaLayout(c, "Meta"+k.name, fmt.Sprintf("%q", t), m, k.typ, []byte(t)) {
+					continue
+				}
+				got := "\x00unset"
+				ok := k.get(m, &got)
+				if !ok || got != t {
+					c.Violation("accessor:Meta"+k.name, fmt.Sprintf("accessor of Meta%s(%q): ok=%v, returned %q", k.name, t, ok, got), fmt.Sprintf("%q", t), fmt.Sprintf("%q", t), fmt.Sprintf("%q", got))
+				}
+				c.DistinctBytes([]byte(k.name), []byte(t))
+			}
+			d := []byte(t)
+			if len(d) > 0 {
+				m := smf.MetaSequencerData(d)
+				got := []byte{0xEE}
+				if ok := m.GetMetaSeqData(&got); !ok || !bytes.Equal(got, d) {
+					c.Violation("accessor:MetaSequencerData", fmt.Sprintf("GetMetaSeqData(MetaSequencerData(%q)) = %v,%q", t, ok, got), fmt.Sprintf("%q", t), nil, nil)
+				}
+			}
 		}
 	})
 
